@@ -12,7 +12,7 @@ from typing import List, Optional, Tuple
 
 from ..astutil import Defs
 from ..cfg import cfg_of
-from ..core import AnalysisError, FuncInfo, attr_chain, kwarg, short, walk_no_nested, walk_stmts
+from ..core import AnalysisError, FuncInfo, attr_chain, cshort, kwarg, short, walk_no_nested, walk_stmts
 from ..effects import MUTATING_BUILTIN
 from .c01 import _field_stores
 from . import c07
@@ -140,9 +140,16 @@ def _guards(ctx) -> None:
     f = prog.func("table.Table.__rshift__")
     cfg = cfg_of(f)
     probs = []
+    new_cols = None
+    for st in walk_stmts(f.body):
+        if isinstance(st, ast.Return) and isinstance(st.value, ast.Call) and short(st.value.func) == "Table" and st.value.args \
+                and isinstance(st.value.args[0], ast.BinOp) and short(st.value.args[0].left) == "tuple(self._underlying)":
+            r = st.value.args[0].right
+            if isinstance(r, ast.Call) and short(r.func) == "tuple" and r.args and isinstance(r.args[0], ast.Name):
+                new_cols = r.args[0].id
     apps = [n for n in cfg.stmt_nodes() if isinstance(n.ast, ast.Expr) and isinstance(n.ast.value, ast.Call)
             and isinstance(n.ast.value.func, ast.Attribute) and n.ast.value.func.attr == "append"
-            and short(n.ast.value.func.value) == "named_cols"]
+            and short(n.ast.value.func.value) == new_cols]
     if len(apps) != 1:
         raise AnalysisError("Table.__rshift__: append of a new named column not found")
     val = short(apps[0].ast.value.args[0])
@@ -239,7 +246,7 @@ def _row_view(ctx) -> None:
     f = prog.func("table.Row.__init__")
     tbl = f.params[1]
     snap = [s for s in f.body if isinstance(s, ast.Assign) and short(s.targets[0]) == "self._raw_cols"]
-    ok = len(snap) == 1 and short(snap[0].value) == f"[col._underlying for col in {tbl}._underlying]"
+    ok = len(snap) == 1 and cshort(snap[0].value) == f"[_0._underlying for _0 in {tbl}._underlying]"
     ctx.ob("d.row-view", f, "snapshot", ok, "snapshot of all column tuples, in order, straight from the table", snap[0] if snap else f.node,
            message=f"Row takes its cells from `{short(snap[0].value, 70) if snap else '?'}`, not from the table's current column tuples "
                    f"[col._underlying for col in {tbl}._underlying]: a row view can disagree with the columns (stale or filtered snapshot)")
@@ -250,8 +257,8 @@ def _row_view(ctx) -> None:
     acc = {
         "table.Row.__getitem__": "self._raw_cols[key][self._index]",
         "table.Row.__iter__": None,
-        "table.Row._underlying": "tuple((col[self._index] for col in self._raw_cols))",
-        "table.Row.__getattr__": "self._raw_cols[col_idx][self._index]",
+        "table.Row._underlying": "tuple((_0[self._index] for _0 in self._raw_cols))",
+        "table.Row.__getattr__": "self._raw_cols[$X][self._index]",
     }
     for q, want in acc.items():
         g = prog.func(q)
@@ -269,7 +276,9 @@ def _row_view(ctx) -> None:
             ctx.ob("d.row-view", g, "accessor", ok, "iteration yields col[self._index] over all snapshot columns", g.node,
                    message="Row.__iter__ does not yield the cell of every column at the row index")
             continue
-        rets = [short(s.value) for s in walk_stmts(g.body) if isinstance(s, ast.Return) and s.value is not None]
+        rets = [cshort(s.value) for s in walk_stmts(g.body) if isinstance(s, ast.Return) and s.value is not None]
+        if "$X" in want:
+            rets = [_mask_index_name(s.value) for s in walk_stmts(g.body) if isinstance(s, ast.Return) and s.value is not None]
         ctx.ob("d.row-view", g, "accessor", want in rets, f"returns {want}", g.node,
                message=f"{q} returns {rets}; expected the snapshot cell `{want}`")
     # Table.__iter__ / __getitem__(int)
@@ -281,10 +290,21 @@ def _row_view(ctx) -> None:
         r = loops[0].iter
         ok = isinstance(r, ast.Call) and short(r.func) == "range" and len(r.args) == 1 and short(d.resolve(r.args[0])) == "len(self)" \
             and any(isinstance(n, ast.Yield) and short(n.value).endswith(f".set_index({loops[0].target.id})") for n in walk_no_nested(loops[0]))
-        rv = [v for v, _, _ in d.assigns.get("row_view", []) if v is not None]
-        ok = ok and all(short(v) == "Row(self, 0)" for v in rv)
+        ys = [n for n in walk_no_nested(loops[0]) if isinstance(n, ast.Yield) and isinstance(n.value, ast.Call)
+              and isinstance(n.value.func, ast.Attribute) and isinstance(n.value.func.value, ast.Name)]
+        rvn = ys[0].value.func.value.id if ys else "?"
+        rv = [v for v, _, _ in d.assigns.get(rvn, []) if v is not None]
+        ok = ok and bool(rv) and all(short(v) == "Row(self, 0)" for v in rv)
     ctx.ob("d.row-view", g, "iteration", ok, "iteration yields rows 0..len(self)-1 of this table", g.node,
            message="Table.__iter__ does not yield set_index(i) for i in range(len(self)) on a Row of this table")
+
+
+def _mask_index_name(e: ast.AST) -> str:
+    """self._raw_cols[<any local name>][self._index] -> self._raw_cols[$X][self._index]"""
+    if isinstance(e, ast.Subscript) and isinstance(e.value, ast.Subscript) and short(e.value.value) == "self._raw_cols" \
+            and isinstance(e.value.slice, ast.Name):
+        return f"self._raw_cols[$X][{short(e.slice)}]"
+    return short(e)
 
 
 def _structural(ctx) -> None:
@@ -306,7 +326,7 @@ def _structural(ctx) -> None:
     for r in rets:
         c = r.value.args[0].args[0] if (isinstance(r.value, ast.Call) and r.value.args and isinstance(r.value.args[0], ast.Call)
                                         and r.value.args[0].args) else None
-        if not (isinstance(c, ast.GeneratorExp) and short(c.elt) == "x << y" and isinstance(c.generators[0].iter, ast.Call)
+        if not (isinstance(c, ast.GeneratorExp) and cshort(c).startswith("(_0 << _1 for _0, _1 in zip(self.cols(), ") and isinstance(c.generators[0].iter, ast.Call)
                 and short(c.generators[0].iter.func) == "zip" and short(c.generators[0].iter.args[0]) == "self.cols()"
                 and kwarg(c.generators[0].iter, "strict") is not None and not c.generators[0].ifs):
             probs.append(f"`{short(r.value, 70)}` is not `x << y` over zip(self.cols(), <rows>, strict=True)")
@@ -327,7 +347,7 @@ def _structural(ctx) -> None:
     if not (isinstance(r, ast.Call) and short(r.func) == "range" and len(r.args) == 1 and short(d.resolve(r.args[0])) == "self._length"):
         probs.append(f"rows range over `{short(r)}`, not range(self._length)")
     cell = [n for n in walk_no_nested(lp) if isinstance(n, ast.GeneratorExp)]
-    if not (cell and short(cell[0]) == f"(col[{lp.target.id}] for col in self._underlying)"):
+    if not (cell and cshort(cell[0]) == f"(_0[{lp.target.id}] for _0 in self._underlying)"):
         probs.append(f"row i is built from `{short(cell[0]) if cell else '?'}`, not from col[i] for all columns")
     ctx.ob("e.structural-ops", g, ".T", not probs, "row i of .T = cells [i] of all columns", lp, message="; ".join(probs))
     ctx.ob("e.structural-ops", prog.func("table.Table.__getitem__"), "int-row", any(
